@@ -1,6 +1,7 @@
 import EpModel.Props.C03
 import EpModel.Lemmas.SpecSane
 import EpModel.Lemmas.StructSlice
+import EpModel.Props.C05
 /-
   C07 — length and content errors describe the real fault.
 
@@ -14,11 +15,15 @@ import EpModel.Lemmas.StructSlice
   `FullStatement`; `full_statement_false_*` prove, with concrete packets, that it does not hold of the
   model (the checker replays these packets against the crate and prints them as KNOWN-FINDING).
   The strict struct-decoding doors (PacketHeaders::from_ethernet_slice / from_ether_type / from_ip_slice) are
-  covered through C04 (`headers_len_error_describes_fault_partial`).  Lax stop errors and the IpHeaders
-  family are covered by the correspondence + oracle (tools/epcheck/props/c07.py), not by a theorem.
+  covered through C04 (`headers_len_error_describes_fault_partial`).  Lax stop errors of LaxSlicedPacket::from_ether_type are
+  covered through the lax refinement of C05 (`lax_stop_error_describes_fault_partial`; the Ethernet and IP doors
+  have the same statement in Props/C05: `lax_ethernet_stop_iff_fault`, `lax_ip_stop_iff_fault`).  The IpHeaders
+  family and LaxPacketHeaders are covered by the correspondence + oracle (tools/epcheck/props/c07.py) and,
+  up to the wording differences listed there, by C04's lax agreement.
 -/
 namespace EpModel.Props.C07
 open EpModel EpModel.Dec EpModel.Spec EpModel.Lemmas.Refine EpModel.Props.C03 EpModel.Lemmas.StructSlice
+open EpModel.Lemmas.RefineLax
 
 /-- C07 for one reported length error `e`, where `f` is the fault the bytes really have. -/
 structure Describes (e : LenError) (f : Fault) : Prop where
@@ -253,6 +258,44 @@ theorem headers_len_error_describes_fault_partial (x : Entry) (b : Bytes) (e : L
     (h : x.runHeaders b = some (.error (.len e))) :
     ∃ f, Spec.decode x.start (memOf b) b.length = .error f ∧ DescribesPartial e f :=
   len_error_describes_fault_partial x b e hs (headers_error_is_slicing_error x b (.len e) hs h)
+
+/-! ### lax stop errors (through the lax refinement of C05) -/
+
+/-- a matching length error describes the fault (the inequality comes from `FaultSane`) -/
+theorem describesPartial_of_lenMatch {e : LenError} {f : Fault} (h : LenMatch e f) (hs : FaultSane f) :
+    DescribesPartial e f := by
+  obtain ⟨hcls, hlayer, hoff, hlen, hreq, hsrc⟩ := h
+  refine ⟨hlayer, hoff, hlen, hreq, ?_, ?_, hsrc⟩
+  · intro hnt
+    rw [hlen, hreq]
+    apply hs.2
+    cases hc : f.cls <;> simp_all
+  · intro ht
+    rw [hlen, hreq]
+    exact hs.1 ht
+
+/-- C07 for lax stop errors, LaxSlicedPacket::from_ether_type: the stop error of every lax result describes
+    the fault the lax wire-format walk reports (same two known exceptions on the length source), or it is
+    the differently worded - and equally true - error for an IPv4 header in fewer than 20 bytes -/
+theorem lax_stop_error_describes_fault_partial (et : Nat) (b : Bytes) (e : LenError) (ly : Layer)
+    (h : (laxSlicedFromEtherType (memOf b) et b.length).stop = some (.len e, ly)) :
+    ∃ f, (Spec.decodeLax (.etherType et) (memOf b) b.length).2 = some f ∧
+      (DescribesPartial e f ∨ ShortV4Stop (memOf b) (.len e) ly f) := by
+  have hr := EpModel.Props.C05.lax_from_ether_type_matches_wire_formats et b
+  unfold RelLaxW at hr
+  rw [h] at hr
+  cases hf : (Spec.decodeLax (.etherType et) (memOf b) b.length).2 with
+  | none => rw [hf] at hr; exact hr.2.elim
+  | some f =>
+    rw [hf] at hr
+    refine ⟨f, rfl, ?_⟩
+    have hsane : FaultSane f := by
+      unfold Spec.decodeLax at hf
+      exact walkN_sane _ _ _ _ _ _ _ hf
+    rcases hr.2 with hm | hw
+    · left
+      exact describesPartial_of_lenMatch (by simpa [StopMatch, ErrMatch] using hm.2) hsane
+    · right; exact hw
 
 /-- every strict UDP slice lies inside the slice it was cut from. -/
 theorem udp_within (g : Mem) (o l : Nat) (w : Win) (h : udpFromSlice g o l = .ok w) :
